@@ -664,16 +664,23 @@ func run(r *mon.Run) {
 		// a second, unsigned member whose window covers an instant at which the genuine signature is no longer / not yet
 		// valid: the exchange must not verify at that instant, whichever member comes first
 		for _, shift := range []time.Duration{s.spec.Expires.Sub(s.spec.Date) + 24*time.Hour, -(s.spec.Expires.Sub(s.spec.Date) + 24*time.Hour)} {
-			for _, decoyFirst := range []bool{false, true} {
-				shift, decoyFirst := shift, decoyFirst
+			for di, decoyFirst := range []bool{false, true, false, true, false, true} {
+				shift, decoyFirst, di := shift, decoyFirst, di
 				v, ok := rewriteSig(s, func(pi *sh.ParameterisedIdentifier, pl *sh.ParameterisedList) {
+					// the decoy under a label of its own, or under the SAME label as the genuine member; with garbage for a
+					// signature, or as a verbatim copy of the genuine member in which only the two dates were rewritten
 					d := sh.ParameterisedIdentifier{Label: "decoy", Params: sh.Parameters{}}
+					if di >= 2 {
+						d.Label = pi.Label
+					}
 					for k, val := range pi.Params {
 						d.Params[k] = val
 					}
 					d.Params["date"] = pi.Params["date"].(int64) + int64(shift/time.Second)
 					d.Params["expires"] = pi.Params["expires"].(int64) + int64(shift/time.Second)
-					d.Params["sig"] = []byte("not a signature")
+					if di < 4 {
+						d.Params["sig"] = []byte("not a signature")
+					}
 					if decoyFirst {
 						*pl = append(sh.ParameterisedList{d}, *pl...)
 					} else {
@@ -685,8 +692,9 @@ func run(r *mon.Run) {
 				}
 				c := clone(s.e)
 				c.SignatureHeaderValue = v
-				judge(r, s, c, mid.Add(shift), fetch, "signature-param", fmt.Sprintf("decoy-member-with-live-window(first=%v,shift=%v)", decoyFirst, shift > 0), 37)
-				judge(r, s, c, mid, fetch, "signature-param", fmt.Sprintf("decoy-member(first=%v),genuine-live", decoyFirst), 37)
+				kind := []string{"own-label", "own-label", "same-label", "same-label", "same-label-copy", "same-label-copy"}[di]
+				judge(r, s, c, mid.Add(shift), fetch, "signature-param", fmt.Sprintf("decoy-member-with-live-window(%s,first=%v,shift=%v)", kind, decoyFirst, shift > 0), 37)
+				judge(r, s, c, mid, fetch, "signature-param", fmt.Sprintf("decoy-member(%s,first=%v),genuine-live", kind, decoyFirst), 37)
 			}
 		}
 		// the unsigned integrity parameter redirected to that other signed header, with the payload swapped for the body
